@@ -260,6 +260,301 @@ def classify(trait, lhs, rhs, body, macro_table):
     return dict(lacc="unknown", racc="unknown", core='.other "%s"' % t.replace('"', "'")[:400], calls=calls_of(t))
 
 
+# ------------------------------------------------------------------ div_ops::repr: size-class dispatch of TypedRepr
+
+RFNS = ("div_rem_dword", "div_rem_large_dword", "div_rem_large", "div_dword", "div_large_dword", "div_large",
+        "rem_dword", "rem_large_dword", "rem_large")
+RTYPES = {"TypedRepr": False, "TypedReprRef": True}
+PAT_CTOR = {"Small": (False, False), "RefSmall": (False, True), "Large": (True, False), "RefLarge": (True, True)}
+
+
+def submodule_text(text, name):
+    m = re.search(r"(?:pub(?:\([a-z]+\))? )?mod %s \{" % re.escape(name), text)
+    if not m:
+        raise PlumbError("module %s not found" % name)
+    e = balanced(text, m.end() - 1)
+    return text[m.end():e - 1]
+
+
+def tok_balanced(t, i, o="{", c="}"):
+    """t[i] == o: index after the matching closer (token list)"""
+    depth = 0
+    while i < len(t):
+        if t[i] == o:
+            depth += 1
+        elif t[i] == c:
+            depth -= 1
+            if depth == 0:
+                return i + 1
+        i += 1
+    raise PlumbError("unbalanced tokens")
+
+
+def ract(t):
+    """Lean term of an arm body (token list with the payloads renamed x0 / x1, ownership noise removed)"""
+    s = " ".join(t)
+    if len(t) >= 2 and t[0] == "{" and tok_balanced(t, 0) == len(t):
+        return ract(t[1:-1])
+    m = re.fullmatch(r"(\w+) \( x0 , x1 \)", s)
+    if m and m.group(1) in RFNS:
+        return ".call .%s" % m.group(1)
+    srcs = [("Repr :: from_dword ( x0 )", "", ".from_dword0"), ("Repr :: from_buffer ( x0 )", "", ".from_buffer0"),
+            ("Repr :: from_buffer ( x1 )", "x1 . clone_from_slice ( x0 ) ; ", ".from_buffer1_cloned0")]
+    for ret, pre, name in srcs:
+        if s == pre + "( Repr :: zero ( ) , %s )" % ret:
+            return ".zeroPair %s" % name
+        if s == pre + ret:
+            return ".lhs %s" % name
+    if s == "Repr :: zero ( )":
+        return ".zero"
+    head = "if x0 . len ( ) > = x1 . len ( )".split(" ")      # TOK has no `>=` token
+    if t[:len(head)] == head and len(t) > len(head) and t[len(head)] == "{":
+        e1 = tok_balanced(t, len(head))
+        if t[e1:e1 + 2] == ["else", "{"] and tok_balanced(t, e1 + 1) == len(t):
+            return ".ifLen (%s) (%s)" % (ract(t[len(head):e1]), ract(t[e1 + 1:]))
+    return '.other "%s"' % s.replace('"', "'")[:300]
+
+
+def repr_impls(rep):
+    """[(trait, lhsRef, rhsRef, [(lLarge, rLarge, act)])] of the Div / Rem / DivRem impls in `mod repr` of div_ops"""
+    out = []
+    for m in HDR.finditer(rep):
+        trait, rhs, lhs = m.group(1), norm_type(m.group(2)), norm_type(m.group(3))
+        rhs, lhs = re.sub(r"<.*>", "", rhs), re.sub(r"<.*>", "", lhs)
+        if trait not in ("Div", "Rem", "DivRem") or lhs not in RTYPES or rhs not in RTYPES:
+            continue
+        e = balanced(rep, m.end() - 1)
+        body = rep[m.end():e - 1]
+        fm = re.search(r"\bfn\s+%s\s*\(" % TRAITS[trait], body)
+        if not fm:
+            raise PlumbError("repr impl %s<%s> for %s: fn not found" % (trait, rhs, lhs))
+        p1 = balanced(body, fm.end() - 1, "(", ")")
+        b0 = body.index("{", p1)
+        b1 = balanced(body, b0)
+        t = toks(body[b0 + 1:b1 - 1])
+        arms = []
+        head = ["match", "(", "self", ",", "rhs", ")", "{"]
+        if t[:len(head)] != head or tok_balanced(t, len(head) - 1) != len(t):
+            out.append((trait, RTYPES[lhs], RTYPES[rhs], [(False, False, '.other "%s"' % " ".join(t)[:200].replace('"', "'"))]))
+            continue
+        i = len(head)
+        end = len(t) - 1
+        while i < end:
+            # pattern: ( C0 ( [mut] x ) , C1 ( [mut] y ) ) =>
+            if t[i] != "(":
+                raise PlumbError("repr impl %s<%s> for %s: arm pattern not understood at %r" % (trait, rhs, lhs, t[i:i + 8]))
+            pe = tok_balanced(t, i, "(", ")")
+            pat = [x for x in t[i + 1:pe - 1] if x != "mut"]
+            mm = re.fullmatch(r"(\w+) \( (\w+) \) , (\w+) \( (\w+) \)", " ".join(pat))
+            if not mm or mm.group(1) not in PAT_CTOR or mm.group(3) not in PAT_CTOR or t[pe] != "=>":
+                raise PlumbError("repr impl %s<%s> for %s: arm pattern %r" % (trait, rhs, lhs, " ".join(pat)))
+            (l_large, l_ref), (r_large, r_ref) = PAT_CTOR[mm.group(1)], PAT_CTOR[mm.group(3)]
+            if l_ref != RTYPES[lhs] or r_ref != RTYPES[rhs]:
+                raise PlumbError("repr impl %s<%s> for %s: pattern constructor of the wrong type" % (trait, rhs, lhs))
+            j = pe + 1
+            if t[j] == "{":
+                k = tok_balanced(t, j)
+                body_t = t[j:k]
+                if k < end and t[k] == ",":
+                    k += 1
+            else:
+                depth, k = 0, j
+                while k < end and not (t[k] == "," and depth == 0):
+                    depth += {"(": 1, "{": 1, "[": 1, ")": -1, "}": -1, "]": -1}.get(t[k], 0)
+                    k += 1
+                body_t = t[j:k]
+                k += 1
+            ren = {mm.group(2): "x0", mm.group(4): "x1"}
+            ren.pop("_", None)
+            bt = [ren.get(x, x) for x in body_t]
+            # ownership noise: `x . into ( )` -> `x`, `& x` -> `x`
+            s2 = " ".join(bt)
+            s2 = re.sub(r"\b(x[01]) \. into \( \)", r"\1", s2)
+            s2 = re.sub(r"& (x[01])\b", r"\1", s2)
+            arms.append((l_large, r_large, ract(s2.split(" "))))
+            i = k
+        out.append((trait, RTYPES[lhs], RTYPES[rhs], arms))
+    return out
+
+
+# ------------------------------------------------------------------ length guards of the division kernels
+
+# (Lean name, file, fn, kind of statement, index among the statements of that kind in the fn body, what it decides)
+GUARDS = [
+    ("guard_div_rem_in_place_simple", "integer/src/div/mod.rs", "div_rem_in_place", "if", 0,
+     "`div::div_rem_in_place`: the `if` that selects `simple::div_rem_in_place` (else Burnikel-Ziegler)"),
+    ("guard_dc_div_rem_in_place", "integer/src/div/divide_conquer.rs", "div_rem_in_place", "assert", 0,
+     "`divide_conquer::div_rem_in_place`: entry `assert!`"),
+    ("guard_dc_same_len", "integer/src/div/divide_conquer.rs", "div_rem_in_place_same_len", "assert", 0,
+     "`div_rem_in_place_same_len`: entry `assert!`"),
+    ("guard_dc_small_quotient_pre", "integer/src/div/divide_conquer.rs", "div_rem_in_place_small_quotient", "assert", 0,
+     "`div_rem_in_place_small_quotient`: first `assert!`"),
+    ("guard_dc_small_quotient_m", "integer/src/div/divide_conquer.rs", "div_rem_in_place_small_quotient", "assert", 1,
+     "`div_rem_in_place_small_quotient`: second `assert!` (`m = lhs.len() - n`)"),
+    ("guard_dc_small_quotient_simple", "integer/src/div/divide_conquer.rs", "div_rem_in_place_small_quotient", "if", 0,
+     "`div_rem_in_place_small_quotient`: the `if` that hands a short quotient to `simple::div_rem_in_place`"),
+    ("guard_simple_n", "integer/src/div/simple.rs", "div_rem_in_place", "assert", 0,
+     "`simple::div_rem_in_place`: first `assert!`"),
+    ("guard_simple_len", "integer/src/div/simple.rs", "div_rem_in_place", "assert", 1,
+     "`simple::div_rem_in_place`: second `assert!`"),
+    ("guard_hw_estimate", "integer/src/div/simple.rs", "div_rem_highest_word", "if", 0,
+     "`div_rem_highest_word`: the `if` that takes the 3-by-2 estimate (else `Word::MAX`)"),
+    ("guard_hw_addback", "integer/src/div/simple.rs", "div_rem_highest_word", "if", 1,
+     "`div_rem_highest_word`: the `if` that detects an estimate too large by one (add-back)"),
+    ("guard_dbw_one", "integer/src/div/mod.rs", "div_by_word_in_place", "if", 0,
+     "`div_by_word_in_place`: divisor 1 shortcut"),
+    ("guard_dbw_pow2", "integer/src/div/mod.rs", "div_by_word_in_place", "if", 1,
+     "`div_by_word_in_place`: power-of-two shortcut"),
+    ("guard_rbw_pow2", "integer/src/div/mod.rs", "rem_by_word", "if", 0,
+     "`rem_by_word`: power-of-two shortcut"),
+    ("guard_dbd_pow2", "integer/src/div/mod.rs", "div_by_dword_in_place", "if", 0,
+     "`div_by_dword_in_place`: power-of-two shortcut"),
+    ("guard_dbd_shift0", "integer/src/div/mod.rs", "div_by_dword_in_place", "if", 1,
+     "`div_by_dword_in_place`: power of two = 2^WORD_BITS exactly (`shift = trailing_zeros - WORD_BITS`)"),
+    ("guard_rbd_pow2", "integer/src/div/mod.rs", "rem_by_dword", "if", 0,
+     "`rem_by_dword`: power-of-two shortcut"),
+    ("guard_unshifted_carry", "integer/src/div/mod.rs", "div_rem_unshifted_in_place", "if", 0,
+     "`div_rem_unshifted_in_place`: the shift carry gets its own quotient word"),
+]
+
+
+def fn_text(src, name):
+    m = re.search(r"\bfn\s+%s\s*(?:<[^>]*>)?\s*\(" % re.escape(name), src)
+    if not m:
+        raise PlumbError("fn %s not found" % name)
+    p1 = balanced(src, m.end() - 1, "(", ")")
+    b0 = src.index("{", p1)
+    return src[b0 + 1:balanced(src, b0) - 1]
+
+
+class GuardExpr:
+    """`||`, `&&`, comparisons, `+ - *`, integer literals, identifiers, `x.len()`, `path::CONST`, parentheses"""
+
+    def __init__(self, t):
+        self.t, self.i, self.vars, self.bools = t, 0, [], set()
+
+    def peek(self):
+        return self.t[self.i] if self.i < len(self.t) else None
+
+    def take(self):
+        self.i += 1
+        return self.t[self.i - 1]
+
+    def var(self, v):
+        if v not in self.vars:
+            self.vars.append(v)
+        return v
+
+    def parse(self):
+        e = self.or_()
+        if self.peek() is not None:
+            raise PlumbError("guard expression: unexpected %r" % self.peek())
+        return e
+
+    def or_(self):
+        e = self.and_()
+        while self.peek() == "||":
+            self.take()
+            e = "(%s || %s)" % (e, self.and_())
+        return e
+
+    def and_(self):
+        e = self.cmp()
+        while self.peek() == "&&":
+            self.take()
+            e = "(%s && %s)" % (e, self.cmp())
+        return e
+
+    def cmp(self):
+        a = self.sum()
+        op = self.peek()
+        if a in self.bools and op in (None, "||", "&&", ")"):
+            return a
+        if op in ("<", ">"):
+            self.take()
+            if self.peek() == "=":
+                self.take()
+                op += "="
+        elif op in ("==", "!="):
+            self.take()
+        else:
+            raise PlumbError("guard expression: comparison expected after %r" % a)
+        b = self.sum()
+        return "decide (%s %s %s)" % (a, {"<": "<", "<=": "≤", ">": ">", ">=": "≥", "==": "=", "!=": "≠"}[op], b)
+
+    def sum(self):
+        e = self.prod()
+        while self.peek() in ("+", "-"):
+            e = "(%s %s %s)" % (e, self.take(), self.prod())
+        return e
+
+    def prod(self):
+        e = self.atom()
+        while self.peek() == "*":
+            self.take()
+            e = "(%s * %s)" % (e, self.atom())
+        return e
+
+    def atom(self):
+        x = self.take()
+        if x is None:
+            raise PlumbError("guard expression: truncated")
+        if x == "*":                       # deref of a `&Word` binding: the value
+            x = self.take()
+            if x is None or not re.fullmatch(r"[A-Za-z_]\w*", x) or self.peek() in (".", "(", "[", "::"):
+                raise PlumbError("guard expression: `*` not followed by a plain identifier")
+            return self.var(x)
+        if x == "(":
+            e = self.or_() if self.looks_bool() else self.sum()
+            if self.take() != ")":
+                raise PlumbError("guard expression: `)` expected")
+            return e
+        if re.fullmatch(r"\d+", x):
+            return x
+        if re.fullmatch(r"[A-Za-z_]\w*", x):
+            while self.peek() == "::":
+                self.take()
+                x = self.take()
+            if self.t[self.i:self.i + 4] == [".", "len", "(", ")"]:
+                self.i += 4
+                return self.var(x + "_len")
+            if self.t[self.i:self.i + 4] == [".", "is_power_of_two", "(", ")"]:
+                self.i += 4
+                e = "Dashu.Model.Div.isPow2 %s" % self.var(x)       # the model's reading of the std method
+                self.bools.add(e)
+                return e
+            if self.peek() in (".", "(", "["):
+                raise PlumbError("guard expression: call or index on %r" % x)
+            return self.var(x)
+        raise PlumbError("guard expression: unexpected token %r" % x)
+
+    def looks_bool(self):
+        return False
+
+
+def guard_defs(repo):
+    """Lean text of the length guards (one `def … : Bool` each) read from the kernel sources"""
+    out = []
+    for lean, rel, fn, kind, idx, what in GUARDS:
+        src = re.sub(r"//[^\n]*", "", open(os.path.join(repo, rel)).read())
+        body = fn_text(src, fn)
+        if kind == "if":
+            hits = [m.group(1) for m in re.finditer(r"\bif\s+([^{};]+?)\s*\{", body)]
+        else:
+            hits = []
+            for m in re.finditer(r"(?<![A-Za-z_])assert!\s*\(", body):
+                e = balanced(body, m.end() - 1, "(", ")")
+                hits.append(body[m.end():e - 1])
+        if idx >= len(hits):
+            raise PlumbError("%s: %s #%d of fn %s not found" % (rel, kind, idx, fn))
+        text = " ".join(hits[idx].split())
+        g = GuardExpr(toks(text))
+        expr = g.parse()
+        params = " ".join("(%s : Nat)" % v for v in sorted(g.vars))       # sorted: independent of the order of the operands
+        out.append("/-- %s — %s fn %s: `%s` -/\ndef %s %s : Bool :=\n  %s" % (what, rel, fn, text, lean, params, expr))
+    return out
+
+
 def ty(t):
     return (".%s" % t.lstrip("&"), "true" if t.startswith("&") else "false")
 
@@ -304,8 +599,28 @@ def generate(repo=None):
     out.append(",\n".join(lines))
     out.append("]")
     out.append("")
+    rimpls = repr_impls(submodule_text(module_text(src, "div_ops"), "repr"))
+    if not rimpls:
+        raise PlumbError("no Div / Rem / DivRem impl for TypedRepr found in div_ops::repr")
+    b = lambda x: "true" if x else "false"
+    disp = {"Div": ".div", "Rem": ".rem", "DivRem": ".div_rem"}
+    rimpls.sort(key=lambda r: (["DivRem", "Div", "Rem"].index(r[0]), r[1], r[2]))
+    out.append("/-- `mod repr` of div_ops.rs: the arms of `match (self, rhs)` in every `impl Div / Rem / DivRem` between")
+    out.append("    `TypedRepr` and `TypedReprRef` (the size-class dispatch the model's `divRepr` / `remRepr` / `divRemRepr` mirror) -/")
+    out.append("def reprTable : List RImpl := [")
+    rl = []
+    for trait, lref, rref, arms in rimpls:
+        rl.append("  -- impl %s<%s> for %s\n  ⟨%s, %s, %s, [%s]⟩" % (
+            trait, "TypedReprRef" if rref else "TypedRepr", "TypedReprRef" if lref else "TypedRepr", disp[trait], b(lref), b(rref),
+            ", ".join("⟨%s, %s, %s⟩" % (b(ll), b(rl_), act) for ll, rl_, act in arms)))
+    out.append(",\n".join(rl))
+    out.append("]")
+    out.append("")
+    for g in guard_defs(repo or repo_dir()):
+        out.append(g)
+        out.append("")
     out.append("end Dashu.Gen.DivPlumbing")
-    info = {"impls": len(rows), "expansion_cache_hit": hit, "source_hash": key,
+    info = {"impls": len(rows), "repr_impls": len(rimpls), "expansion_cache_hit": hit, "source_hash": key,
             "unclassified": [("%s<%s> for %s" % (r[1], r[3], r[2])) for r in rows if r[4]["core"].startswith(".other")]}
     return "\n".join(out) + "\n", info
 
